@@ -517,7 +517,7 @@ int main(int argc, char** argv) {
               int out = 0; for (auto& p : P) if (!obb.containsPoint(p)) ++out;
               run.expect(out == 0, "obb-contains-points/" + place, [&] { return std::to_string(out) + " of the points are outside their OrientedBoundingBox, " + where(); }, rp);
               Mat33 R = obb.getTransform().R().asMat33();
-              run.residual("obb-rotation-orthonormal", (R * R.transpose() - Mat33(1)).norm() + std::abs(det(R) - 1), 1e-12, where, rp);
+              run.residual("obb-rotation-orthonormal", (R * R.transpose() - Mat33(1)).norm() + std::abs(det(R) - 1), 1e-11, where, rp);
               // not absurdly larger than the cloud (the documented inflation is 1e-5 relative / 1e-10 absolute per side)
               run.residual("obb-diagonal-vs-cloud-extent", obb.getSize().norm() / (std::sqrt(3.0) * ext + 1e-9), 1.001, where, rp);
               for (auto& p : P) run.residual("obb-nearest-point-of-contained-point", (obb.findNearestPoint(p) - p).norm() / std::max(mag, 1.0), 1e-12, where, rp);
